@@ -94,6 +94,11 @@ func vConnCase(r *vrng) (string, string, string, string) {
 		} else if err != nil {
 			cls = "e"
 		}
+		if n == 0 {
+			// a zero-length read moves no byte; whether it already reports a stored end-of-stream (bufio does once it has seen
+			// one together with data) is not part of the stream's content and is not compared
+			cls = "z"
+		}
 		res("rd:%s:%s", vdigest(p[:k]), cls)
 		if matching {
 			want := stream[min(len(delivered)+*phase, len(stream)):]
